@@ -27,7 +27,11 @@ RULES["C18"] = (
     "meshes structured subsets (one whole body, alternating, single face, complement of a single face, all, none) "
     "and random subsets, caches cold or warm, also through process(validate=True). (b) fill_holes: every single "
     "face and every adjacent pair removed on 12 templates, plus generated sets of triangle/quad holes that are "
-    "vertex-disjoint or touch at vertices. (c) subdivide(all | face subset, 1-2 rounds), remesh.subdivide with "
+    "vertex-disjoint or touch at vertices; and the same small holes next to boundary loops that cannot be filled: all "
+    "faces at a vertex (fan), a breadth-first patch of 3-10 faces, one half of a body or both caps of a prism removed "
+    "(cap / tube / hemisphere / closed body with a larger hole / two bodies of which one keeps only small holes), then "
+    "1-4 triangle or quad holes clear of those loops; enumerated on 7 templates (every clear single face and adjacent "
+    "pair). (c) subdivide(all | face subset, 1-2 rounds), remesh.subdivide with "
     "return_index and tagged vertex attributes, subdivide_to_size(max_edge = ratio x longest edge, max_iter, "
     "return_index), subdivide_loop(1-3 iterations), on closed and open (faces removed) meshes, half of them in an "
     "unwelded description (exact copies, so positions coincide): a translated twin touching the original at a vertex "
@@ -44,6 +48,9 @@ ASSUMPTIONS["C18"] = [
     "non-negative (its docstring: 'rather than just one'); per-body positivity is required for multibody=None/True",
     "fill_holes is only required to succeed when every hole is a single missing triangle or a pair of edge-adjacent "
     "missing triangles, at least 3 faces remain (coded early exit) and holes share at most one vertex pairwise",
+    "fill_holes next to unfillable loops (C18.holes_mixed): checked when the boundary loops of the input are vertex-disjoint "
+    "simple cycles; then every loop of 3 or 4 edges must be closed (len-2 new faces on its vertices, wound against its "
+    "neighbours), loops of 5+ edges must be exactly the boundary that is left, and the return value must equal closedness",
     "subdivide_to_size: the raise / no-raise clause is skipped when some edge/2^k is within 1e-9 (relative) of max_edge",
     "subdivide_loop positions are compared with the docstring masks only when every boundary vertex lies on exactly two "
     "boundary edges; new-vertex order is not assumed (vertices are matched by position)",
@@ -494,6 +501,213 @@ def holes_case(draw):
         used_f |= set(grp)
         used_v |= {v for j in grp for v in faces[j]}
     return {"spec": spec, "remove": sorted(remove), "pseed": pseed, "warm": draw(st.booleans())}
+
+
+# ---- triangle / quad holes next to boundary loops that cannot be filled (open surfaces, larger holes)
+
+
+def boundary_loops(faces):
+    """boundary of a face list as simple loops: -> (list of vertex lists, True) when every boundary vertex lies on exactly
+    two boundary edges (the loops are then vertex-disjoint simple cycles), else (None, False)"""
+    bnd = R.boundary_edges(faces)
+    nbr = {}
+    for a, b in bnd:
+        nbr.setdefault(a, []).append(b)
+        nbr.setdefault(b, []).append(a)
+    if any(len(v) != 2 for v in nbr.values()):
+        return None, False
+    loops, seen = [], set()
+    for start in sorted(nbr):
+        if start in seen:
+            continue
+        loop, prev, cur = [start], None, start
+        seen.add(start)
+        while True:
+            nxt = [w for w in nbr[cur] if w != prev]
+            nxt = nxt[0] if nxt else nbr[cur][0]
+            if nxt == start:
+                break
+            loop.append(nxt)
+            seen.add(nxt)
+            prev, cur = cur, nxt
+        loops.append(loop)
+    return loops, True
+
+
+@body("C18.holes_mixed")
+def b_holes_mixed(case, ctx):
+    V, F = build_case(case)
+    faces0 = R.faces_list(F)
+    nf = len(faces0)
+    gone = {int(i) for i in list(case["big"]) + list(case["remove"]) if 0 <= int(i) < nf}
+    keep = [i for i in range(nf) if i not in gone]
+    kept = [faces0[i] for i in keep]
+    if len(keep) < 3:
+        ctx.note(cls="mixed:skipped_fewer_than_3_faces_left")
+        return
+    loops, simple = boundary_loops(kept)
+    if not simple:
+        # loops sharing a vertex: the configuration of the known finding (and of C18.holes) is excluded by construction
+        ctx.note(cls="mixed:skipped_boundary_loops_touch")
+        return
+    small = [lp for lp in loops if len(lp) <= 4]
+    large = [lp for lp in loops if len(lp) > 4]
+    for lp in small:
+        if len(lp) == 4:
+            for tri in itertools.combinations(lp, 3):
+                p, q, r = V[list(tri)]
+                if np.linalg.norm(np.cross(q - p, r - p)) < 1e-6 * max(np.linalg.norm(q - p), np.linalg.norm(r - p)) ** 2:
+                    ctx.note(cls="mixed:skipped_quad_with_collinear_corners")
+                    return
+    comps = R.face_components(kept)
+    closed_bodies = sum(1 for c in comps if R.is_closed([kept[i] for i in c]))
+    large_v = {v for lp in large for v in lp}
+    spared = sum(1 for c in comps if not ({v for i in c for v in kept[i]} & large_v))
+    shape = "none" if not small else "tri" if all(len(lp) == 3 for lp in small) else "quad" if all(len(lp) == 4 for lp in small) else "tri+quad"
+    ctx.note(
+        nontrivial=bool(small and large),
+        cls=[f"mixed:large_loops={min(len(large), 3)}:small={shape}", f"mixed:small_holes={min(len(small), 4)}", f"mixed:bodies={min(len(comps), 3)}:closed_bodies={min(closed_bodies, 2)}", "mixed:every_body_has_a_large_loop" if not spared else "mixed:a_body_without_large_loop", "mixed:" + spec_label(case["spec"]), "mixed:" + str(case.get("how", "?"))],
+    )
+    Fk = np.ascontiguousarray(F[keep])
+    mesh = trimesh.Trimesh(vertices=V.copy(), faces=Fk.copy(), process=False)
+    if case.get("warm"):
+        warm_up(mesh)
+    ret = mesh.fill_holes()
+    G = np.asarray(mesh.faces)
+    got = R.faces_list(G)
+    new = got[len(keep) :]
+    cl = f"large={min(len(large), 2)}|{shape}"
+    txt = f"boundary loops of the input: {len(large)} longer than 4 (lengths {[len(lp) for lp in large][:6]}), small {small[:8]} -> returned {ret}, appended {new[:12]}"
+    check(np.asarray(mesh.vertices).tobytes() == V.tobytes(), f"C18.holes_mixed|vertices_changed|{cl}", txt)
+    check(len(got) >= len(keep) and G[: len(keep)].tobytes() == Fk.tobytes(), f"C18.holes_mixed|old_faces_changed|{cl}", txt)
+    # every loop of length 3 / 4 is closed, the longer loops are exactly what is left of the boundary
+    left = set(R.boundary_edges(got))
+    want_left = {(a, b) if a < b else (b, a) for lp in large for a, b in zip(lp, lp[1:] + lp[:1])}
+    still_open = [lp for lp in small if any(((a, b) if a < b else (b, a)) in left for a, b in zip(lp, lp[1:] + lp[:1]))]
+    check(not still_open, f"C18.holes_mixed|small_hole_left_open|{cl}", lambda: f"{txt}: still open {still_open}")
+    check(left == want_left, f"C18.holes_mixed|boundary_after|{cl}", lambda: f"{txt}: boundary edges after {sorted(left)[:12]}, expected the {len(want_left)} edges of the long loops")
+    check(len(new) == sum(len(lp) - 2 for lp in small), f"C18.holes_mixed|new_face_count|{cl}", txt)
+    loop_sets = [set(lp) for lp in small]
+    check(all(any(set(f) <= ls for ls in loop_sets) for f in new), f"C18.holes_mixed|new_face_off_hole|{cl}", txt)
+    check(all(len(v) <= 2 for v in R.undirected_edges(got).values()) and R.is_consistent(got), f"C18.holes_mixed|new_face_winding|{cl}", txt)
+    # a missing single triangle comes back as it was
+    removed_cyc = {R.cyc(faces0[i]) for i in case["remove"] if 0 <= int(i) < nf}
+    for lp in small:
+        if len(lp) == 3:
+            mine = [R.cyc(f) for f in new if set(f) == set(lp)]
+            orig = [c for c in removed_cyc if set(c) == set(lp)]
+            if orig:
+                check(mine == orig, f"C18.holes_mixed|triangle_not_restored|{cl}", lambda: f"{txt}: got {mine}, removed {orig}")
+    check(bool(ret) == R.is_closed(got) and bool(mesh.is_watertight) == R.is_closed(got), f"C18.holes_mixed|return_value|{cl}", f"{txt}: closed afterwards {R.is_closed(got)}, is_watertight {mesh.is_watertight}")
+    n_ref, _ = R.unit_normals(V, G)
+    n_got = np.asarray(mesh.face_normals)
+    check(n_got.shape == n_ref.shape and bool(((n_got * n_ref).sum(axis=1) > 0.999).all()), f"C18.holes_mixed|face_normals_disagree_with_winding|{cl}", txt)
+
+
+def _face_tables(faces):
+    und = R.undirected_edges(faces)
+    vfaces = {}
+    for i, f in enumerate(faces):
+        for v in f:
+            vfaces.setdefault(v, []).append(i)
+
+    def neighbours(i):
+        a, b, c = faces[i]
+        out = set()
+        for x, y in ((a, b), (b, c), (c, a)):
+            out |= set(und[(x, y) if x < y else (y, x)])
+        return out - {i}
+
+    return vfaces, neighbours
+
+
+def small_hole_candidates(faces, blocked_v):
+    """single faces and adjacent pairs none of whose vertices is in blocked_v"""
+    ok = [i for i, f in enumerate(faces) if not (set(f) & blocked_v)]
+    oks = set(ok)
+    return [[i] for i in ok] + [[a, b] for a, b in adjacent_pairs(faces) if a in oks and b in oks]
+
+
+MIXED_TEMPLATES = ["icos0", "prism5", "uv54", "torus54", "box", "box+octa", "icos0j"]
+
+
+def enum_mixed(seed):
+    """a fan (all faces at one vertex) or both caps / one half removed, then every single face and every adjacent pair
+    that keeps clear of the big boundary"""
+    k = 0
+    for name in MIXED_TEMPLATES:
+        spec = HOLE_TEMPLATES[name]
+        V, F = meshes.build(spec)
+        faces = R.faces_list(F)
+        vfaces, _ = _face_tables(faces)
+        bigs = [("fan", sorted(vfaces[v])) for v in sorted(vfaces)]
+        zc = V[F].mean(axis=1)[:, 2]
+        bigs.append(("half", [i for i in range(len(faces)) if zc[i] < np.median(zc) - 1e-9]))
+        if name == "prism5":
+            n = len(spec["parts"][0]["radii"])
+            bigs.append(("tube", sorted(set(vfaces[2 * n]) | set(vfaces[2 * n + 1]))))
+        for how, big in bigs:
+            if not big or len(faces) - len(big) < 4:
+                continue
+            blocked = {v for i in big for v in faces[i]}
+            for grp in small_hole_candidates(faces, blocked):
+                k += 1
+                if how == "fan" and (k + seed) % 3:
+                    continue  # a third of the fan cases per seed; halves and tubes all
+                yield {"spec": spec, "big": big, "remove": grp, "pseed": 0, "warm": bool(k & 1), "how": how}
+
+
+@st.composite
+def mixed_case(draw):
+    spec = draw(meshes.mesh_spec(kinds=["box", "octa", "icos", "prism", "torus", "uvsphere", "icos"], max_parts=2, jitter=True, max_faces=120))
+    pseed = draw(st.sampled_from([0, 1])) * draw(st.integers(1, 2**31 - 1))
+    V, F = scramble(*meshes.build(spec), pseed)
+    faces = R.faces_list(F)
+    nf = len(faces)
+    vfaces, neighbours = _face_tables(faces)
+    comps = R.face_components(faces)
+    # the large openings: in one body only (the other one stays closed) or anywhere
+    where = set(comps[draw(st.integers(0, len(comps) - 1))]) if len(comps) > 1 and draw(st.booleans()) else set(range(nf))
+    big, hows = set(), []
+    for _ in range(draw(st.integers(1, 2))):
+        how = draw(st.sampled_from(["fan", "patch", "half", "fan"]))
+        if how == "fan":
+            v = draw(st.sampled_from(sorted({x for i in where for x in faces[i]})))
+            add = set(vfaces[v])
+        elif how == "patch":
+            start = draw(st.sampled_from(sorted(where)))
+            size = draw(st.integers(3, 10))
+            add, frontier = {start}, [start]
+            while frontier and len(add) < size:
+                cur = frontier.pop(0)
+                for j in sorted(neighbours(cur)):
+                    if j not in add and len(add) < size:
+                        add.add(j)
+                        frontier.append(j)
+        else:
+            body_faces = sorted(set(comps[draw(st.integers(0, len(comps) - 1))]) & where) or sorted(where)
+            axis = draw(st.integers(0, 2))
+            c = V[F[body_faces]].mean(axis=1)[:, axis]
+            cut = float(np.median(c))
+            add = {i for i, x in zip(body_faces, c.tolist()) if x < cut - 1e-9}
+        big |= add
+        hows.append(how)
+    blocked = {v for i in big for v in faces[i]}
+    remove = []
+    for _ in range(draw(st.integers(1, 4))):
+        cand = small_hole_candidates(faces, blocked)
+        if not cand:
+            break
+        grp = draw(st.sampled_from(cand))
+        remove += grp
+        blocked |= {v for i in grp for v in faces[i]}
+    return {"spec": spec, "big": sorted(big), "remove": sorted(remove), "pseed": pseed, "warm": draw(st.booleans()), "how": "+".join(sorted(set(hows)))}
+
+
+@subcheck("C18", "holes_mixed", shards={"quick": 8, "thorough": 16})
+def s_holes_mixed(ctx):
+    ctx.enumerate("C18.holes_mixed", enum_mixed(ctx.seed), label="fan_or_half_or_caps_removed_on_7_templates_x_every_clear_single_face_and_adjacent_pair", complete=False)
+    ctx.given("C18.holes_mixed", mixed_case(), n={"quick": 1000, "thorough": 25000})
 
 
 @subcheck("C18", "holes_enum", shards={"quick": 8, "thorough": 8})
@@ -1017,6 +1231,12 @@ REQUIRED_CLASSES["C18"] = [
     "to_size:dirty=twin",
     "loop:dirty=unweld",
     "loop:dirty=extra",
+    "mixed:large_loops=1:small=tri",
+    "mixed:large_loops=1:small=quad",
+    "mixed:large_loops=1:small=tri+quad",
+    "mixed:large_loops=2:small=tri",
+    "mixed:a_body_without_large_loop",
+    "mixed:small_holes=3",
     "subdivide:closed:bodies=2:all",
     "subdivide:open:bodies=1:proper",
     "subdivide:rounds=2",
